@@ -147,6 +147,8 @@ def t_edit(E):
     E.prove("C14.MaskCombinator.edit.flip_weight", E.Implies(
         E.Not(E.eq(pre, post)),
         E.eq(w, E.I.binop("Sub", E.method(new, "get_score"), E.method(old, "get_score")))))
+    E.prove("C14.MaskCombinator.edit.false_stays_false_is_inert", E.Implies(
+        E.And(E.Not(pre), E.Not(post)), E.And(E.eq(w, 0.0), E.eq(E.method(new, "get_score"), 0.0))))
     E.prove("C14.MaskCombinator.edit.true_true_is_inner_weight", E.Implies(
         E.And(pre, post), E.eq(w, SReal(T.edit_w(g.t, ik, itr, irq, iad)))))
     # C08: retdiff primal is the new return value
